@@ -1,12 +1,13 @@
 import KyupyVerif.Model.Transform
 import KyupyVerif.Model.Substitute
+import KyupyVerif.Model.SubstSem
 /-! Driver extension for C10: the transformation models on one netlist dump.
 
 `xform <op> <names> <dump...>`
 * op    = `copy` | `pickle` | `elim` (current tree, forks in index order) | `elimin<s><k>:<name>,<name>,...` (explicit
           dictionary order; s = 1: node order restored afterwards (patch 03), k = 1: undriven forks skipped (patch 06);
           `elimin00:` = the current tree) | `elimmap<k>:<name>,...` (index maps of the loop, k as before) | `wf` |
-          `wfsem` (`wf` and every fork has at most one input: hypotheses of `elim_sem`) | `snames`
+          `wfnt` (`wf` without the clause on trailing `None`s) | `wfsem` (`wf` and every fork has at most one input: hypotheses of `elim_sem`) | `snames`
 * names = node names, percent-encoded, `|`-separated (`%` alone = empty name; `~` = no node)
 * dump  = the canonical dump of `harness/circ.py: dump_net` (`nodes ; lines ; io`, blanks allowed)
 Answer: `<nodes> ; <lines> ; <io> ; <names>` in the same format, `raise` when the model's guard fails,
@@ -17,7 +18,11 @@ Answer: `<nodes> ; <lines> ; <io> ; <names>` in the same format, `raise` when th
 answer as for `xform`, followed by ` ; regular` / ` ; not-regular` (the model's predicate `regularB`).
 
 `resolve <host names> <host dump...> @@ <kind> <impl names> <impl dump...> @@ ...` — `Circuit.resolve_tlib_cells` with the
-library given as (kind, implementation) blocks; answer as for `xform`. -/
+library given as (kind, implementation) blocks; answer as for `xform`.
+
+`substok` (arguments as `subst`) — the hypotheses of `C10.substitute_sem` evaluated on the case, `1`/`0` each:
+`<host wf> <impl wf> <cell no port> <cell no fork> <keepsAllB> <implOKB> <regularB> <result wf> <noIgnoredB> <result wfNoTrail>`
+(`-` for the result flags when the model answers `raise`).  `resolveok` (arguments as `resolve`) — those of `C10.resolve_sem`: `<host wf> <resolveOKB> <result wf> <first failing condition or ok>`. -/
 namespace KV.Drv.Transform
 open KV KV.Transform
 
@@ -82,6 +87,20 @@ def handleSubst (args : List String) : String :=
     showOpt (substitute h c.toNat! m) ++ (if regularB h c.toNat! m then " ; regular" else " ; not-regular")
   | _ => "bad-args"
 
+def b01 (b : Bool) : String := if b then "1" else "0"
+
+def handleSubstOk (args : List String) : String :=
+  match args with
+  | c :: hn :: mn :: rest =>
+    let (hd, md) := splitAt2 rest
+    let h : NNet := { net := parseNet (" ".intercalate hd), names := parseNames hn }
+    let m : NNet := { net := parseNet (" ".intercalate md), names := parseNames mn }
+    let ci := c.toNat!
+    " ".intercalate [b01 h.wf, b01 m.wf, b01 (!(h.net.io.contains ci)), b01 (!((h.net.node ci).isFork)), b01 (keepsAllB h ci m),
+      b01 (implOKB m), b01 (regularB h ci m), (match substitute h ci m with | some r => b01 r.wf | none => "-"),
+      b01 (noIgnoredB h ci m), match substitute h ci m with | some r => b01 r.wfNoTrail | none => "-"]
+  | _ => "bad-args"
+
 /-- `resolve <host names> <host dump...> @@ <kind> <impl names> <impl dump...> @@ <kind> ...` -/
 def splitBlocks : List String → List (List String)
   | [] => [[]]
@@ -100,6 +119,34 @@ def handleResolve (args : List String) : String :=
     showOpt (resolveCells lib h)
   | _ => "bad-args"
 
+/-- first reason why `resolveOKB` fails along the loop (`ok` when it holds) -/
+def resolveWhy (lib : Lib) : List (String × Bool) → NNet → String
+  | [], _ => "ok"
+  | key :: rest, cur =>
+    let i := cur.lookup key
+    if i < cur.net.nodes.size then
+      match lib.find (cur.net.node i).kind with
+      | some impl =>
+        if !impl.wf then "impl-wf" else if !(implOKB impl) then "implOK:" ++ pct (cur.net.node i).kind
+        else if !(keepsAllB cur i impl) then "keepsAll:" ++ pct (cur.net.node i).kind
+        else if cur.net.io.contains i then "cell-is-port" else if (cur.net.node i).isFork then "cell-is-fork"
+        else match substitute cur i impl with
+          | some nxt => resolveWhy lib rest nxt
+          | none => "raise"
+      | none => resolveWhy lib rest cur
+    else resolveWhy lib rest cur
+
+def handleResolveOk (args : List String) : String :=
+  match splitBlocks args with
+  | (hn :: hd) :: libBlocks =>
+    let h : NNet := { net := parseNet (" ".intercalate hd), names := parseNames hn }
+    let lib : Lib := libBlocks.filterMap fun b => match b with
+      | kind :: mn :: md => some (unpct kind, { net := parseNet (" ".intercalate md), names := parseNames mn })
+      | _ => none
+    " ".intercalate [b01 h.wf, b01 (resolveOKB lib h.keys h), (match resolveCells lib h with | some r => b01 r.wf | none => "-"),
+      resolveWhy lib h.keys h]
+  | _ => "bad-args"
+
 def showMaps : Option (NNet × Ren) → String
   | some (nn, r) =>
     ",".intercalate ((List.range nn.net.nodes.size).map fun j => toString (r.node j)) ++ " ; " ++
@@ -109,6 +156,8 @@ def showMaps : Option (NNet × Ren) → String
 def handle (cmd : String) (args : List String) : Option String :=
   if cmd == "subst" then some (handleSubst args) else
   if cmd == "resolve" then some (handleResolve args) else
+  if cmd == "substok" then some (handleSubstOk args) else
+  if cmd == "resolveok" then some (handleResolveOk args) else
   if cmd != "xform" then none else
   match args with
   | op :: names :: rest =>
@@ -129,6 +178,7 @@ def handle (cmd : String) (args : List String) : Option String :=
       let order := if o == "" then [] else (o.splitOn ",").map unpct
       some (showMaps (elimForksInM skip order nn))
     else if op == "wf" then some (if nn.wf then "1" else "0")
+    else if op == "wfnt" then some (if nn.wfNoTrail then "1" else "0")
     else if op == "wfsem" then some (if nn.wf && nn.forkIns1 then "1" else "0")
     else if op == "snames" then some (",".intercalate (nn.sNames.map pct))
     else some "bad-args"
